@@ -251,18 +251,15 @@ def run(ctx, R, tier):
             cn = ctx.node_of(rm, c)
             strip = [n for n in cfg.nodes for cc in calls_in(n) if isinstance(cc.func, ast.Attribute) and cc.func.attr == "remove" and unparse(cc.func.value) == var
                      and cc.args and ctx.resolves_to_object(cc.args[0], rm, NSNAME)]
-            tests = [n for n in cfg.nodes if n.kind == "test" and any(isinstance(x, ast.Compare) and len(x.ops) == 1 and isinstance(x.ops[0], ast.In) and
-                                                                     unparse(x.comparators[0]) == var and ctx.resolves_to_object(x.left, rm, NSNAME)
-                                                                     for x in ast.walk(n.ast.test))]
             defs = [d for n in cn for d in rd.reaching(n, var)]
-            # a membership test + removal that lies between the definition of the list and remove_items, on every path
-            good = False
-            for t in tests:
-                if all(cfg.dominates(t, n) for n in cn) and all(d.node is not None and cfg.dominates(d.node, t) for d in defs):
-                    true_succ = [e.dst for e in t.succ if e.kind == "true"]
-                    if strip and all(cfg.all_paths_pass([t], lambda n: n in strip, edge_ok=lambda e: e.kind == "true" or e.src is not t, targets=cn) for _ in [0]):
-                        good = True
-            ok = good
+            def_nodes = [d.node for d in defs if d.node is not None]
+
+            def absent(atom, pol, var=var):
+                return pol is False and isinstance(atom, ast.Compare) and len(atom.ops) == 1 and isinstance(atom.ops[0], ast.In) and \
+                    unparse(atom.comparators[0]) == var and ctx.resolves_to_object(atom.left, rm, NSNAME)
+            # from the definition of the list, remove_items must not be reachable unless the own name was found absent or was taken out
+            reach = cfg.reachable(def_nodes, edge_ok=lambda e: e.kind != "exc" and not edge_has_fact(e, absent), node_blocked=lambda n: n in strip)
+            ok = bool(def_nodes) and bool(strip) and not any(n.id in reach for n in cn)
             why = "the list handed to remove_items may still contain core.NAMESERVER_NAME: remove(%s=...) can delete the name server's own entry" % path
         R.check(ok, "C14-R4", "remove|by-%s" % path, "the own entry is taken out of the list before remove_items", rm.loc(c), why)
         # R6: count is len of that list
